@@ -12,7 +12,10 @@ import (
 	"encoding/hex"
 	"encoding/json"
 	"errors"
+	"fmt"
+	"io"
 	"math/big"
+	"net"
 	"os"
 	"strings"
 	"sync"
@@ -614,7 +617,12 @@ func runWindow(in In) (obs Obs) {
 	signLog := &signSpy{KeySigner: ks, log: logE}
 	sgn := preconfsigner.NewSigner(signLog)
 	node := mockevm.NewMockEvm(31337,
-		mockevm.WithPendingNonceAtFunc(func(context.Context, common.Address) (uint64, error) { return 5000, nil }),
+		mockevm.WithPendingNonceAtFunc(func(context.Context, common.Address) (uint64, error) {
+			if in.Tag == "submission-fails" {
+				return 4, nil
+			}
+			return 5000, nil
+		}),
 		mockevm.WithNonceAtFunc(func(context.Context, common.Address, *big.Int) (uint64, error) { return 3, nil }),
 		mockevm.WithBlockNumFunc(func(context.Context) (uint64, error) { return 1, nil }),
 		mockevm.WithEstimateGasFunc(func(context.Context, ethereum.CallMsg) (uint64, error) { return 100000, nil }),
@@ -632,6 +640,20 @@ func runWindow(in In) (obs Obs) {
 					}
 					break
 				}
+			}
+			if in.Tag == "submission-fails" {
+				// the chain node never accepts the transaction: every hand-over fails this way
+				switch in.StoreErr {
+				case "transport":
+					return &net.OpError{Op: "write", Net: "tcp", Err: errors.New("connection reset by peer")}
+				case "timeout":
+					return &net.DNSError{Err: "i/o timeout", IsTimeout: true}
+				case "deadline":
+					return fmt.Errorf("Post \"http://node\": %w", context.DeadlineExceeded)
+				case "eof":
+					return io.ErrUnexpectedEOF
+				}
+				return errors.New(in.StoreErr)
 			}
 			return nil
 		}),
@@ -741,7 +763,11 @@ func main() {
 	for _, raw := range vh.Corpus() {
 		var in In
 		if json.Unmarshal(raw, &in) == nil {
-			out.Emit(in, run(in))
+			if in.Tag == "window-exceeded" || in.Tag == "submission-fails" {
+				out.Emit(in, runWindow(in))
+			} else {
+				out.Emit(in, run(in))
+			}
 		}
 	}
 	if vh.OnlyReplay() {
@@ -899,6 +925,13 @@ func main() {
 			b := mkBid("valid")
 			in := In{Tag: "window-exceeded", Role: 2, ReadOK: true, Bid: toJ(b), MinAns: yes[0], AmtAns: yes[1], Schedule: accept,
 				SignOK: true, StoreOK: false, WriteOK: true, Selector: sel, Prims: []Prim{prim(b.Digest, b.Signature)}}
+			out.Emit(in, runWindow(in))
+		}
+		// the chain node refuses or drops the submission itself (real EvmClient underneath)
+		for _, fe := range []string{"transport", "timeout", "deadline", "eof", "nonce too low", "replacement transaction underpriced", "already known"} {
+			b := mkBid("valid")
+			in := In{Tag: "submission-fails", Role: 2, ReadOK: true, Bid: toJ(b), MinAns: yes[0], AmtAns: yes[1], Schedule: accept,
+				SignOK: true, StoreOK: false, WriteOK: true, Selector: sel, Prims: []Prim{prim(b.Digest, b.Signature)}, StoreErr: fe}
 			out.Emit(in, runWindow(in))
 		}
 		// several bids in flight at once through one contract client (real EvmClient underneath)
